@@ -33,10 +33,11 @@ Definition cur_prog (g : gstate) (i : nat) (t : tx) : prog :=
    point where cur_prog remains *)
 Definition shadow_ok (g : gstate) (i : nat) (t : tx) (w : world) : Prop :=
   touches_only t (cur_prog g i t) /\
-  (forall a, fst (run_prog (cur_prog g i t) w) a = WB (S i) a) /\
-  snd (run_prog (cur_prog g i t) w) = snd (run_prog (tx_prog t) (WB i)) /\
+  (forall a, fst (run_from (WB i) (cur_prog g i t) w) a = WB (S i) a) /\
+  snd (run_from (WB i) (cur_prog g i t) w) = snd (run_prog (tx_prog t) (WB i)) /\
   (forall a, ~ active_w g i a -> w a = WB i a) /\
-  (forall a, active_w g i a -> g_real g a = w a).
+  (forall a, active_w g i a -> g_real g a = w a) /\
+  (startedb g i = false -> forall a, w a = WB i a).
 
 Record Inv2 (g : gstate) : Prop := {
   v_real : forall a k, k <= n ->
@@ -52,7 +53,19 @@ Record Inv2 (g : gstate) : Prop := {
   v_cache : forall a x, g_rocache g a = Some x -> x = w0 a;
   v_rcts : forall i r, g_rcts g i = Some r -> observed_seq txs w0 i = Some r;
   v_rdone : forall i, finishedb g i = true -> g_rcts g i <> None;
-  v_final : forall w, g_final g = Some w -> forall a, w a = seq_world txs w0 a
+  v_final : forall w, g_final g = Some w -> forall a, w a = seq_world txs w0 a;
+  (* committed is set by the own Commit of a world writer, by the start of the next
+     transaction (a world locker) or by the final Realize (everything is dispatched then) *)
+  v_csrc : forall j v t, g_vs g j = Some v -> nth_error txs j = Some t -> v_committed v <> None ->
+     world_lock (reqs_of t) = WriteLock \/ S j < dcount txs g \/ n <= dcount txs g;
+  (* base of a transaction without world lock: the world it starts from *)
+  v_basev : forall i v t b, g_vs g i = Some v -> nth_error txs i = Some t ->
+     world_lock (reqs_of t) <> WriteLock -> v_base v = Some b -> forall a, b a = WB i a;
+  (* the worker's snapshot and the recorded bases hold the values the transaction started from *)
+  v_snapv : forall i v s, g_vs g i = Some v -> v_done v = false -> v_snap v = Some s ->
+     (forall a x, s_accts s a = Some x -> x = WB i a) /\ (forall b, s_base s = Some b -> forall a, b a = WB i a) /\
+     (forall a, s_accts s a <> None -> v_accts v a = Some (mkLas WriteLock SLive));
+  v_lbasev : forall i v a x, g_vs g i = Some v -> v_done v = false -> v_lbase v a = Some x -> x = WB i a
 }.
 
 (* ------------------------------------------------------------------ *)
@@ -118,10 +131,12 @@ Lemma shadow_frame g g' i t w : g_vs g' i = g_vs g i -> g_work g' i = g_work g i
   (forall a, active_w g i a -> g_real g' a = g_real g a) ->
   shadow_ok g i t w -> shadow_ok g' i t w.
 Proof.
-  intros Hv Hw Hr (S1 & S2 & S3 & S4 & S5). unfold shadow_ok.
-  rewrite (cur_prog_same _ _ _ _ Hw). repeat split; auto.
+  intros Hv Hw Hr (S1 & S2 & S3 & S4 & S5 & S6). unfold shadow_ok.
+  rewrite (cur_prog_same _ _ _ _ Hw).
+  split; [exact S1|]. split; [exact S2|]. split; [exact S3|]. split; [|split].
   - intros a Na. apply S4. intro A. apply Na. apply (active_same g g'); auto.
   - intros a A. apply (active_same g g') in A; auto. rewrite Hr; auto.
+  - intro St. apply S6. unfold startedb in *. now rewrite <- Hw.
 Qed.
 
 Lemma v_real_mono g g' : (forall j, is_done g' j = is_done g j) ->
@@ -139,11 +154,17 @@ Proof.
 Qed.
 
 (* steps that only set base / committed fields that were nil *)
-Lemma inv2_st_sim g g' : Inv2 g -> st_sim g g' -> Inv2 g'.
+Lemma inv2_st_sim g g' : Inv2 g -> st_sim g g' ->
+  (forall j v v', g_vs g j = Some v -> g_vs g' j = Some v' -> v_committed v = None ->
+     v_committed v' <> None -> S j < dcount txs g \/ n <= dcount txs g) ->
+  (forall j v v' t, g_vs g j = Some v -> g_vs g' j = Some v' -> nth_error txs j = Some t ->
+     v_base v' <> v_base v -> world_lock (reqs_of t) = WriteLock) ->
+  Inv2 g'.
 Proof.
-  intros [V1 V2 V3 V4 V5 V6 V7 V8 V9] S.
+  intros [V1 V2 V3 V4 V5 V6 V7 V8 V9 V10 V11 V12 V13] S Hcs Hbs.
   assert (SD' : forall m, is_done g' m = is_done g m) by (intro m; eapply st_sim_done; eauto).
   destruct S as [(R & W & Dp & Tk & Rc & Lk & Wl & Ro & Fi) Sv].
+  assert (Dc : dcount txs g' = dcount txs g) by (unfold dcount; now rewrite Dp).
   assert (Act : forall j a, active_w g' j a <-> active_w g j a).
   { intros j a. unfold active_w, startedb. rewrite W. specialize (Sv j).
     destruct (g_vs g j) as [v|], (g_vs g' j) as [v'|]; try contradiction.
@@ -154,10 +175,12 @@ Proof.
   - apply (v_real_mono g g'); auto. intros j a [T|T]; [left; now rewrite SD'|right; now apply Act].
   - intros i v' t Hv' Ht Hnd. specialize (Sv i). rewrite Hv' in Sv.
     destruct (g_vs g i) as [v|] eqn:Hv; try contradiction. destruct Sv as (A1 & A2 & A3 & _).
-    destruct (V2 i v t Hv Ht) as [w (S1 & S2 & S3 & S4 & S5)]; [congruence|].
-    exists w. unfold shadow_ok. rewrite (cur_prog_same g g') by (now rewrite W). repeat split; auto.
+    destruct (V2 i v t Hv Ht) as [w (S1 & S2 & S3 & S4 & S5 & S6)]; [congruence|].
+    exists w. unfold shadow_ok. rewrite (cur_prog_same g g') by (now rewrite W).
+    split; [exact S1|]. split; [exact S2|]. split; [exact S3|]. split; [|split].
     + intros a Na. apply S4. intro A. apply Na. now apply Act.
     + intros a A. rewrite R. apply S5. now apply Act.
+    + intro St. apply S6. unfold startedb in *. now rewrite <- W.
   - intros i v' a x Hv' Ha. specialize (Sv i). rewrite Hv' in Sv.
     destruct (g_vs g i) as [v|] eqn:Hv; try contradiction. destruct Sv as (A1 & _).
     eapply V3; eauto. now rewrite <- A1.
@@ -172,6 +195,22 @@ Proof.
   - intros i r. rewrite Rc. apply V7.
   - intros i. unfold finishedb. rewrite W, Rc. apply V8.
   - intros w. rewrite Fi. apply V9.
+  - intros j v' t Hv' Ht Hc. rewrite Dc. pose proof (Sv j) as Sj. rewrite Hv' in Sj.
+    destruct (g_vs g j) as [v|] eqn:Hv; try contradiction. destruct Sj as (_ & _ & _ & _ & A5 & _).
+    destruct (v_committed v) eqn:C.
+    + apply (V10 j v t Hv Ht). congruence.
+    + right. apply (Hcs j v v' Hv Hv' C Hc).
+  - intros i v' t b Hv' Ht Wn Hb. pose proof (Sv i) as Si. rewrite Hv' in Si.
+    destruct (g_vs g i) as [v|] eqn:Hv; try contradiction.
+    destruct Si as (_ & _ & _ & _ & _ & [E|E] & _).
+    + apply (V11 i v t b Hv Ht Wn). congruence.
+    + exfalso. apply Wn. apply (Hbs i v v' t Hv Hv' Ht). congruence.
+  - intros i v' s Hv' Hnd Hs. pose proof (Sv i) as Si. rewrite Hv' in Si.
+    destruct (g_vs g i) as [v|] eqn:Hv; try contradiction. destruct Si as (A1 & _ & A3 & _ & _ & _ & _ & A8).
+    rewrite A1. apply (V12 i v s Hv); congruence.
+  - intros i v' a x Hv' Hnd Hx. pose proof (Sv i) as Si. rewrite Hv' in Si.
+    destruct (g_vs g i) as [v|] eqn:Hv; try contradiction. destruct Si as (_ & _ & A3 & _ & _ & _ & A7 & _).
+    apply (V13 i v a x Hv); congruence.
 Qed.
 
 (* ------------------------------------------------------------------ *)
@@ -204,8 +243,8 @@ Qed.
 (* ------------------------------------------------------------------ *)
 (* acquiring an account                                                 *)
 
-Lemma active_upd_other g i v a l' j a' : g_vs g i = Some v -> (j <> i \/ a' <> a) ->
-  (active_w (set_vs g i (upd_accts v a l')) j a' <-> active_w g j a').
+Lemma active_upd_other g i v a l' b j a' : g_vs g i = Some v -> (j <> i \/ a' <> a) ->
+  (active_w (set_vs g i (upd_accts v a l' b)) j a' <-> active_w g j a').
 Proof.
   intros Hv Hne. unfold active_w, startedb. cbn.
   destruct (Nat.eqb_spec j i); subst; [|tauto].
@@ -226,9 +265,9 @@ Qed.
 
 Lemma acqw_inv2 g i v a d : Inv1 g -> Inv2 g -> g_vs g i = Some v ->
   v_accts v a = Some (mkLas WriteLock (SDep d)) -> is_done g d = true ->
-  Inv2 (set_vs g i (upd_accts v a (mkLas WriteLock SLive))).
+  Inv2 (set_vs g i (upd_accts v a (mkLas WriteLock SLive) (g_real g a))).
 Proof.
-  intros I V Hv Ha D. set (g' := set_vs g i (upd_accts v a (mkLas WriteLock SLive))).
+  intros I V Hv Ha D. set (g' := set_vs g i (upd_accts v a (mkLas WriteLock SLive) (g_real g a))).
   destruct (tx_of_vs _ _ _ _ I Hv) as [t Ht].
   destruct (entry_of_las _ _ _ _ _ _ I Hv Ht Ha) as (e & He & [L1 L2] & Wnw). cbn in L1, L2.
   destruct L2 as [LW L2].
@@ -244,8 +283,8 @@ Proof.
   assert (Amono : forall j a', active_w g j a' -> active_w g' j a').
   { intros j a' A. destruct (Nat.eq_dec j i) as [->|]; [destruct (Nat.eq_dec a' a) as [->|]|].
     - contradiction.
-    - apply (active_upd_other g i v a (mkLas WriteLock SLive) i a'); auto.
-    - apply (active_upd_other g i v a (mkLas WriteLock SLive) j a'); auto. }
+    - apply (active_upd_other g i v a (mkLas WriteLock SLive) (g_real g a) i a'); auto.
+    - apply (active_upd_other g i v a (mkLas WriteLock SLive) (g_real g a) j a'); auto. }
   assert (Hi : i <= n) by (apply Nat.lt_le_incl, nth_error_Some; congruence).
   assert (Hreal : g_real g a = WB i a).
   { apply (v_real _ V); auto.
@@ -253,18 +292,19 @@ Proof.
     - intros j Hj Ej. destruct (Nat.eq_dec j i) as [->|].
       + intros [T|T]; [congruence|contradiction].
       + apply (later_untouched g i a j I Ei Di); [lia|exact Ej]. }
-  destruct V as [V1 V2 V3 V4 V5 V6 V7 V8 V9]. constructor; auto.
+  destruct V as [V1 V2 V3 V4 V5 V6 V7 V8 V9 V10 V11 V12 V13]. constructor; auto.
   - apply (v_real_mono g g'); auto. intros j a' [T|T]; [left; now rewrite SD|right; auto].
   - intros j vj tj Hvj Htj Hndj. destruct (Nat.eq_dec j i) as [->|Hne].
     + assert (tj = t) by congruence; subst tj.
-      destruct (V2 i v t Hv Ht Hnd) as [w (S1 & S2 & S3 & S4 & S5)]. exists w.
+      destruct (V2 i v t Hv Ht Hnd) as [w (S1 & S2 & S3 & S4 & S5 & S6)]. exists w.
       unfold shadow_ok. rewrite (cur_prog_same g g') by reflexivity.
-      split; [exact S1|]. split; [exact S2|]. split; [exact S3|]. split.
+      split; [exact S1|]. split; [exact S2|]. split; [exact S3|]. split; [|split].
       * intros a' Na. apply S4. intro A. apply Na. auto.
       * intros a' A. change (g_real g a' = w a').
         destruct (Nat.eq_dec a' a) as [->|Hna].
         -- rewrite Hreal. symmetry. apply S4. exact Nact.
-        -- apply S5. apply (active_upd_other g i v a (mkLas WriteLock SLive) i a'); auto.
+        -- apply S5. apply (active_upd_other g i v a (mkLas WriteLock SLive) (g_real g a) i a'); auto.
+      * exact S6.
     + assert (Hvj' : g_vs g j = Some vj).
       { unfold g' in Hvj. cbn in Hvj. destruct (Nat.eqb_spec j i); congruence. }
       destruct (V2 j vj tj Hvj' Htj Hndj) as [w Sw]. exists w.
@@ -278,11 +318,28 @@ Proof.
   - intros j vj tj Hvj Htj Hdj Wj. unfold g' in Hvj. cbn in Hvj. destruct (Nat.eqb_spec j i); subst.
     + inversion Hvj; subst vj. cbn in *. congruence.
     + eapply V5; eauto.
+  - intros j vj tj Hvj Htj Hc. unfold g' in Hvj. cbn in Hvj. change (dcount txs g') with (dcount txs g).
+    destruct (Nat.eqb_spec j i); subst.
+    + inversion Hvj; subst vj. eapply V10; eauto.
+    + eapply V10; eauto.
+  - intros j vj tj b Hvj Htj Wn Hb. unfold g' in Hvj. cbn in Hvj. destruct (Nat.eqb_spec j i); subst.
+    + inversion Hvj; subst vj. eapply V11; eauto.
+    + eapply V11; eauto.
+  - intros j vj s Hvj Hndj Hs. unfold g' in Hvj. cbn in Hvj. destruct (Nat.eqb_spec j i); subst.
+    + inversion Hvj; subst vj. destruct (V12 i v s Hv Hnd Hs) as (P1 & P2 & P3).
+      split; [exact P1|]. split; [exact P2|]. intros a' Ha'. cbn.
+      destruct (Nat.eqb_spec a' a); subst; auto.
+    + eapply V12; eauto.
+  - intros j vj a' x Hvj Hndj Hx. unfold g' in Hvj. cbn in Hvj. destruct (Nat.eqb_spec j i); subst.
+    + inversion Hvj; subst vj. cbn in Hx. destruct (Nat.eqb_spec a' a); subst.
+      * inversion Hx; subst. exact Hreal.
+      * eapply V13; eauto.
+    + eapply V13; eauto.
 Qed.
 
-Lemma active_upd_nolive g i v a l' j a' : g_vs g i = Some v ->
+Lemma active_upd_nolive g i v a l' b j a' : g_vs g i = Some v ->
   v_accts v a <> Some (mkLas WriteLock SLive) -> l' <> mkLas WriteLock SLive ->
-  (active_w (set_vs g i (upd_accts v a l')) j a' <-> active_w g j a').
+  (active_w (set_vs g i (upd_accts v a l' b)) j a' <-> active_w g j a').
 Proof.
   intros Hv Ho Hn. destruct (Nat.eq_dec j i) as [->|Hne]; [destruct (Nat.eq_dec a' a) as [->|Hna]|].
   - unfold active_w, startedb. cbn. rewrite Nat.eqb_refl, Hv.
@@ -294,9 +351,9 @@ Qed.
 
 Lemma acqr_inv2 g i v a l d x : Inv1 g -> Inv2 g -> g_vs g i = Some v ->
   v_accts v a = Some (mkLas l (SDep d)) -> l <> WriteLock -> is_done g d = true -> peek g d a = Some x ->
-  Inv2 (set_vs g i (upd_accts v a (mkLas l (SRO x)))).
+  Inv2 (set_vs g i (upd_accts v a (mkLas l (SRO x)) x)).
 Proof.
-  intros I V Hv Ha Hl D P. set (g' := set_vs g i (upd_accts v a (mkLas l (SRO x)))).
+  intros I V Hv Ha Hl D P. set (g' := set_vs g i (upd_accts v a (mkLas l (SRO x)) x)).
   destruct (tx_of_vs _ _ _ _ I Hv) as [t Ht].
   destruct (entry_of_las _ _ _ _ _ _ I Hv Ht Ha) as (e & He & [L1 L2] & Wnw). cbn in L1, L2.
   destruct L2 as [LW L2].
@@ -308,17 +365,18 @@ Proof.
   assert (SD : forall m, is_done g' m = is_done g m) by (intro; eapply is_done_upd_accts; eauto).
   assert (Act : forall j a', active_w g' j a' <-> active_w g j a').
   { intros. apply active_upd_nolive; auto; congruence. }
-  destruct V as [V1 V2 V3 V4 V5 V6 V7 V8 V9]. constructor; auto.
+  destruct V as [V1 V2 V3 V4 V5 V6 V7 V8 V9 V10 V11 V12 V13]. constructor; auto.
   - apply (v_real_mono g g'); auto. intros j a' [T|T]; [left; now rewrite SD|right; now apply Act].
   - intros j vj tj Hvj Htj Hndj.
     assert (exists vj0, g_vs g j = Some vj0 /\ v_done vj0 = false) as (vj0 & Hvj0 & Hnd0).
     { unfold g' in Hvj. cbn in Hvj. destruct (Nat.eqb_spec j i); subst; eauto.
       inversion Hvj; subst vj. cbn in Hndj. eauto. }
-    destruct (V2 j vj0 tj Hvj0 Htj Hnd0) as [w (S1 & S2 & S3 & S4 & S5)]. exists w.
+    destruct (V2 j vj0 tj Hvj0 Htj Hnd0) as [w (S1 & S2 & S3 & S4 & S5 & S6)]. exists w.
     unfold shadow_ok. rewrite (cur_prog_same g g') by reflexivity.
-    split; [exact S1|]. split; [exact S2|]. split; [exact S3|]. split.
+    split; [exact S1|]. split; [exact S2|]. split; [exact S3|]. split; [|split].
     + intros a' Na. apply S4. intro A. apply Na. now apply Act.
     + intros a' A. apply S5. now apply Act.
+    + exact S6.
   - intros j vj a' y Hvj Ha'. unfold g' in Hvj. cbn in Hvj. destruct (Nat.eqb_spec j i); subst.
     + inversion Hvj; subst vj. cbn in Ha'. destruct (Nat.eqb_spec a' a); subst.
       * inversion Ha'; subst. reflexivity.
@@ -330,6 +388,57 @@ Proof.
   - intros j vj tj Hvj Htj Hdj Wj. unfold g' in Hvj. cbn in Hvj. destruct (Nat.eqb_spec j i); subst.
     + inversion Hvj; subst vj. cbn in *. eapply V5; eauto.
     + eapply V5; eauto.
+  - intros j vj tj Hvj Htj Hc. unfold g' in Hvj. cbn in Hvj. change (dcount txs g') with (dcount txs g).
+    destruct (Nat.eqb_spec j i); subst.
+    + inversion Hvj; subst vj. eapply V10; eauto.
+    + eapply V10; eauto.
+  - intros j vj tj b Hvj Htj Wn Hb. unfold g' in Hvj. cbn in Hvj. destruct (Nat.eqb_spec j i); subst.
+    + inversion Hvj; subst vj. eapply V11; eauto.
+    + eapply V11; eauto.
+  - intros j vj s Hvj Hndj Hs. unfold g' in Hvj. cbn in Hvj. destruct (Nat.eqb_spec j i); subst.
+    + inversion Hvj; subst vj. cbn in Hndj. destruct (V12 i v s Hv Hndj Hs) as (P1 & P2 & P3).
+      split; [exact P1|]. split; [exact P2|]. intros a' Ha'. cbn.
+      destruct (Nat.eqb_spec a' a); subst; auto.
+      exfalso. specialize (P3 a Ha'). congruence.
+    + eapply V12; eauto.
+  - intros j vj a' y Hvj Hndj Hy. unfold g' in Hvj. cbn in Hvj. destruct (Nat.eqb_spec j i); subst.
+    + inversion Hvj; subst vj. cbn in Hy. destruct (Nat.eqb_spec a' a); subst.
+      * inversion Hy; subst. reflexivity.
+      * eapply V13; eauto.
+    + eapply V13; eauto.
+Qed.
+
+(* realizeBaseInLock of a world locker preserves the value invariant *)
+Lemma realize_base_inv2 g i v g' : Inv1 g -> Inv2 g -> g_vs g i = Some v -> v_wlock v <> NoLock ->
+  realize_base g i = Some g' -> Inv2 g'.
+Proof.
+  intros I V Hv W R.
+  destruct (realize_base_inv1 _ _ _ _ _ I Hv R) as (_ & Sim & (v1 & Hv1 & _ & _ & _ & _ & Cs) & _).
+  pose proof (vs_created _ _ _ _ I Hv) as Hc.
+  eapply inv2_st_sim; eauto.
+  - intros j u u' Hu Hu' Cn Cn'. destruct (Nat.eq_dec j i) as [->|Hne].
+    + assert (u' = v1) by congruence; subst u'. assert (u = v) by congruence; subst u. congruence.
+    + destruct (Nat.eq_dec (S j) i) as [<-|Hne']; [left; exact Hc|].
+      rewrite (realize_base_others _ _ _ R j Hne Hne') in Hu'. congruence.
+  - intros j u u' t Hu Hu' Ht Hb. destruct (Nat.eq_dec j i) as [->|Hne].
+    + assert (u = v) by congruence; subst u.
+      pose proof (vo_wlock _ _ _ _ _ (i_vs_ok _ _ I _ _ _ Hv Ht)) as E.
+      destruct (world_lock_cases (reqs_of t)) as [Wl|[Wl|Wl]]; auto.
+      * rewrite Wl in E. destruct (v_done v); congruence.
+      * exfalso. apply (Hnwr _ _ Ht). exact Wl.
+    + exfalso. apply Hb.
+      destruct (Nat.eq_dec (S j) i) as [<-|Hne'].
+      * (* the parent only gets its committed field set *)
+        unfold realize_base in R. rewrite Hv in R. destruct (v_base v); [inversion R; subst; congruence|].
+        destruct (realize g j) as [g1|] eqn:Rj; try discriminate.
+        destruct (g_vs g1 j) as [p|] eqn:Hp; try discriminate.
+        destruct (g_vs g1 (S j)) as [v'|]; try discriminate. inversion R; subst. cbn in Hu'.
+        destruct (Nat.eqb_spec j (S j)); [lia|]. rewrite Hp in Hu'. inversion Hu'; subst u'.
+        unfold realize in Rj. destruct (forallb (is_done g) (chain g j)); try discriminate.
+        rewrite Hu in Rj. destruct (v_committed u); inversion Rj; subst.
+        -- congruence.
+        -- cbn in Hp. rewrite Nat.eqb_refl in Hp. inversion Hp; subst. reflexivity.
+      * rewrite (realize_base_others _ _ _ R j Hne Hne') in Hu'. congruence.
 Qed.
 
 (* GetAccountState preserves the value invariant *)
@@ -339,7 +448,7 @@ Proof.
     [v d Hv Ha D -> ->|v l d x Hv Ha Hl D P -> ->|v l Hv Ha -> ->|v l x Hv Ha -> ->|v v' Hv Ha W R Hv' Hh Hb]; auto.
   - eapply acqw_inv2; eauto.
   - eapply acqr_inv2; eauto.
-  - destruct (realize_base_inv1 _ _ _ _ _ I Hv R) as (_ & S & _). eapply inv2_st_sim; eauto.
+  - eapply realize_base_inv2; eauto.
 Qed.
 
 (* what the handle returned by GetAccountState shows is the shadow's value *)
@@ -348,7 +457,7 @@ Lemma handle_value g i a g' h : Inv1 g -> Inv2 g -> access g i a = Some (g', h) 
   forall v' t w, g_vs g' i = Some v' -> nth_error txs i = Some t -> shadow_ok g' i t w ->
   match h with HLive => active_w g' i a | HRO x => x = w a end.
 Proof.
-  intros I V H St Fi v' t w Hv' Ht (S1 & S2 & S3 & S4 & S5).
+  intros I V H St Fi v' t w Hv' Ht (S1 & S2 & S3 & S4 & S5 & S6).
   destruct (access_inv1 _ _ _ _ _ _ I H) as (I' & SD & VO).
   pose proof (access_inv2 _ _ _ _ _ I V H) as V'.
   assert (Fi' : finishedb g' i = false).
@@ -365,7 +474,7 @@ Proof.
   destruct (access_cases _ _ _ _ _ H) as
     [v d Hv Ha D E ->|v l d x Hv Ha Hl D P E ->|v l Hv Ha E ->|v l x Hv Ha E ->|v v1 Hv Ha W R Hv1 Hh Hb].
   - subst g'. cbn in Hv'. rewrite Nat.eqb_refl in Hv'. inversion Hv'; subst v'.
-    exists (upd_accts v a (mkLas WriteLock SLive)). split; [cbn; now rewrite Nat.eqb_refl|].
+    exists (upd_accts v a (mkLas WriteLock SLive) (g_real g a)). split; [cbn; now rewrite Nat.eqb_refl|].
     split; auto. left. cbn. now rewrite Nat.eqb_refl.
   - subst g'. cbn in Hv'. rewrite Nat.eqb_refl in Hv'. inversion Hv'; subst v'.
     apply RO. cbn. rewrite Nat.eqb_refl.
@@ -411,12 +520,13 @@ Qed.
 
 Lemma inv2_frame_act g g' : Inv2 g -> g_vs g' = g_vs g -> g_real g' = g_real g ->
   g_rocache g' = g_rocache g -> g_rcts g' = g_rcts g -> g_final g' = g_final g ->
+  dcount txs g' = dcount txs g ->
   (forall j a, active_w g j a -> active_w g' j a) -> (forall j, finishedb g' j = finishedb g j) ->
   (forall j v t w, g_vs g j = Some v -> nth_error txs j = Some t -> v_done v = false ->
      shadow_ok g j t w -> exists w', shadow_ok g' j t w') ->
   Inv2 g'.
 Proof.
-  intros [V1 V2 V3 V4 V5 V6 V7 V8 V9] Hvs Hr Hc Hrc Hf Act Hfi Hsh.
+  intros [V1 V2 V3 V4 V5 V6 V7 V8 V9 V10 V11 V12 V13] Hvs Hr Hc Hrc Hf Hdc Act Hfi Hsh.
   assert (SD : forall m, is_done g' m = is_done g m) by (intro; unfold is_done; now rewrite Hvs).
   constructor.
   - apply (v_real_mono g g'); auto. intros j a [T|T]; [left; now rewrite SD|right; now apply Act].
@@ -428,28 +538,36 @@ Proof.
   - intros j r. rewrite Hrc. apply V7.
   - intros j. rewrite Hfi, Hrc. apply V8.
   - intros w. rewrite Hf. apply V9.
+  - intros j v t Hv Ht Hcm. rewrite Hvs in Hv. rewrite Hdc. apply (V10 j v t Hv Ht Hcm).
+  - intros j v t b. rewrite Hvs. apply V11.
+  - intros j v s. rewrite Hvs. apply V12.
+  - intros j v a x. rewrite Hvs. apply V13.
 Qed.
 
 Lemma inv2_frame g g' : Inv2 g -> g_vs g' = g_vs g -> g_real g' = g_real g ->
   g_rocache g' = g_rocache g -> g_rcts g' = g_rcts g -> g_final g' = g_final g ->
+  g_disp g' = g_disp g ->
   (forall j, startedb g' j = startedb g j) -> (forall j, finishedb g' j = finishedb g j) ->
   (forall j v t w, g_vs g j = Some v -> nth_error txs j = Some t -> v_done v = false ->
      shadow_ok g j t w -> exists w', shadow_ok g' j t w') ->
   Inv2 g'.
 Proof.
-  intros V Hvs Hr Hc Hrc Hf Hs Hfi Hsh. eapply inv2_frame_act; eauto.
-  intros j a. unfold active_w. rewrite Hvs, Hs. tauto.
+  intros V Hvs Hr Hc Hrc Hf Hd Hs Hfi Hsh. eapply inv2_frame_act; eauto.
+  - unfold dcount. now rewrite Hd.
+  - intros j a. unfold active_w. rewrite Hvs, Hs. tauto.
 Qed.
 
 (* a shadow carries over when the remaining program and the active set of j are the same *)
 Lemma shadow_same g g' j t w : cur_prog g' j t = cur_prog g j t ->
   (forall a, active_w g' j a <-> active_w g j a) -> g_real g' = g_real g ->
+  (startedb g' j = false -> startedb g j = false) ->
   shadow_ok g j t w -> shadow_ok g' j t w.
 Proof.
-  intros Hp Ha Hr (S1 & S2 & S3 & S4 & S5). unfold shadow_ok. rewrite Hp, Hr.
-  split; [exact S1|]. split; [exact S2|]. split; [exact S3|]. split.
+  intros Hp Ha Hr Hs (S1 & S2 & S3 & S4 & S5 & S6). unfold shadow_ok. rewrite Hp, Hr.
+  split; [exact S1|]. split; [exact S2|]. split; [exact S3|]. split; [|split].
   - intros a Na. apply S4. intro A. apply Na. now apply Ha.
   - intros a A. apply S5. now apply Ha.
+  - intro St. apply S6. auto.
 Qed.
 
 Lemma active_set_work g i p j a : startedb (set_work g i p) i = startedb g i ->
@@ -477,6 +595,7 @@ Proof.
   exists w. apply (shadow_same g (set_work g i (WRun p')) j t w); auto.
   - unfold cur_prog. cbn. destruct (Nat.eqb_spec j i); [contradiction|reflexivity].
   - intro a. apply active_set_work. apply Hs.
+  - rewrite Hs. auto.
 Qed.
 
 Lemma cur_prog_run g i t p : g_work g i = Some (WRun p) -> cur_prog g i t = p.
@@ -495,16 +614,17 @@ Proof.
   assert (Hw1 : g_work g1 i = Some (WRun (Read a k))) by (destruct VO as (_ & W & _); now rewrite W).
   eapply inv2_set_run; eauto.
   intros v t w Hv Ht Hnd Sw. pose proof (handle_value _ _ _ _ _ I V A St Fi _ _ _ Hv Ht Sw) as HV.
-  destruct Sw as (S1 & S2 & S3 & S4 & S5). rewrite (cur_prog_run _ _ _ _ Hw1) in *.
+  destruct Sw as (S1 & S2 & S3 & S4 & S5 & S6). rewrite (cur_prog_run _ _ _ _ Hw1) in *.
   assert (Val : match h with HLive => g_real g1 a | HRO x => x end = w a).
   { destruct h; auto. }
   rewrite Val. exists w. unfold shadow_ok. rewrite (cur_prog_run (set_work g1 i (WRun (k (w a)))) i t (k (w a))).
   2:{ cbn. now rewrite Nat.eqb_refl. }
   assert (Hs : startedb (set_work g1 i (WRun (k (w a)))) i = startedb g1 i).
   { unfold startedb. cbn. now rewrite Nat.eqb_refl, Hw1. }
-  split; [apply touches_read_inv in S1; apply S1|]. split; [exact S2|]. split; [exact S3|]. split.
+  split; [apply touches_read_inv in S1; apply S1|]. split; [exact S2|]. split; [exact S3|]. split; [|split].
   - intros a' Na. apply S4. intro Ac. apply Na. now apply active_set_work.
   - intros a' Ac. apply S5. now apply (active_set_work g1 i _ i a') in Ac.
+  - rewrite Hs. destruct (phase_flags _ _ _ Hw1) as [St1 _]. congruence.
 Qed.
 
 Lemma write_inv2 g i a x k g1 : Inv1 g -> Inv2 g -> g_work g i = Some (WRun (Write a x k)) ->
@@ -533,7 +653,7 @@ Proof.
   assert (SDE : forall m, is_done g' m = is_done g1 m) by reflexivity.
   assert (Ei : effw i a) by (eapply active_effw; eauto).
   assert (Di : is_done g1 i = false) by (eapply active_not_done; eauto).
-  destruct V1 as [V1 V2 V3 V4 V5 V6 V7 V8 V9]. constructor; auto.
+  destruct V1 as [V1 V2 V3 V4 V5 V6 V7 V8 V9 V10 V11 V12 V13]. constructor; auto.
   - intros a' k' Hk H1 H2. destruct (Nat.eq_dec a' a) as [->|Hna].
     + exfalso. destruct (Nat.lt_ge_cases i k') as [Hik|Hik].
       * specialize (H1 i Hik Ei). rewrite SDE in H1. congruence.
@@ -543,10 +663,10 @@ Proof.
   - intros j vj tj Hvj Htj Hndj. change (g_vs g1 j = Some vj) in Hvj.
     destruct (Nat.eq_dec j i) as [->|Hne].
     + assert (vj = v) by congruence; subst vj. assert (tj = t) by congruence; subst tj.
-      destruct Sw as (S1 & S2 & S3 & S4 & S5). rewrite (cur_prog_run _ _ _ _ Hw1) in *.
+      destruct Sw as (S1 & S2 & S3 & S4 & S5 & S6). rewrite (cur_prog_run _ _ _ _ Hw1) in *.
       exists (upd w a x). unfold shadow_ok. rewrite (cur_prog_run g' i t k).
       2:{ unfold g'. cbn. now rewrite Nat.eqb_refl. }
-      split; [apply touches_write_inv in S1; apply S1|]. split; [exact S2|]. split; [exact S3|]. split.
+      split; [apply touches_write_inv in S1; apply S1|]. split; [exact S2|]. split; [exact S3|]. split; [|split].
       * intros a' Na. destruct (Nat.eq_dec a' a) as [->|Hna].
         -- exfalso. apply Na. now apply ActE.
         -- rewrite upd_other by auto. apply S4. intro Ac. apply Na. now apply ActE.
@@ -554,16 +674,19 @@ Proof.
         destruct (Nat.eq_dec a' a) as [->|Hna].
         -- now rewrite !upd_same.
         -- rewrite !upd_other by auto. apply S5. now apply ActE.
-    + destruct (V2 j vj tj Hvj Htj Hndj) as [wj (S1 & S2 & S3 & S4 & S5)]. exists wj.
+      * intro St'. exfalso. unfold startedb, g' in St'. cbn in St'. rewrite Nat.eqb_refl in St'. discriminate.
+    + destruct (V2 j vj tj Hvj Htj Hndj) as [wj (S1 & S2 & S3 & S4 & S5 & S6)]. exists wj.
       assert (Cp : cur_prog g' j tj = cur_prog g1 j tj).
       { unfold cur_prog, g'. cbn. destruct (Nat.eqb_spec j i); [contradiction|reflexivity]. }
       unfold shadow_ok. rewrite Cp.
-      split; [exact S1|]. split; [exact S2|]. split; [exact S3|]. split.
+      split; [exact S1|]. split; [exact S2|]. split; [exact S3|]. split; [|split].
       * intros a' Na. apply S4. intro Ac. apply Na. now apply ActE.
       * intros a' Ac. apply ActE in Ac. change (upd (g_real g1) a x a' = wj a').
         destruct (Nat.eq_dec a' a) as [->|Hna].
         -- exfalso. apply Hne. eapply active_unique; eauto.
         -- rewrite upd_other by auto. apply S5. exact Ac.
+      * intro St'. apply S6. unfold startedb, g' in St'. cbn in St'.
+        destruct (Nat.eqb_spec j i); [contradiction|exact St'].
   - intros j. unfold finishedb, g'. cbn. destruct (Nat.eqb_spec j i); subst.
     + discriminate.
     + apply V8.
@@ -572,6 +695,28 @@ Qed.
 (* ------------------------------------------------------------------ *)
 (* the worker enters Execute                                            *)
 
+(* a world writer that has realized its base and not yet started: the real world
+   state is the world it starts from *)
+Lemma world_writer_real g i t v : Inv1 g -> Inv2 g -> g_vs g i = Some v -> nth_error txs i = Some t ->
+  world_lock (reqs_of t) = WriteLock -> v_done v = false -> startedb g i = false ->
+  (forall m, m < i -> is_done g m = true) -> forall a, g_real g a = WB i a.
+Proof.
+  intros I V Hv Ht Wl Hnd Ns Bs a. pose proof (i_vs_ok _ _ I _ _ _ Hv Ht) as OK.
+  assert (Di : is_done g i = false) by (unfold is_done; now rewrite Hv).
+  assert (Ei : forall a, effw i a).
+  { intro x. exists t. split; auto. apply can_write_spec. auto. }
+  assert (NA : forall a, ~ active_w g i a).
+  { intros x (u & Hu & _ & [H|[_ S]]).
+    - assert (u = v) by congruence; subst u.
+      pose proof (vo_accts _ _ _ _ _ OK x) as LA. rewrite H, (entry_world_write _ x Wl) in LA. exact LA.
+    - congruence. }
+  assert (Hi : i <= n) by (apply Nat.lt_le_incl, nth_error_Some; congruence).
+  apply (v_real _ V); auto.
+  intros j Hj Ej. destruct (Nat.eq_dec j i) as [->|].
+  - intros [T|T]; [congruence|exact (NA a T)].
+  - apply (later_untouched g i a j I (Ei a) Di); [lia|exact Ej].
+Qed.
+
 Lemma started_inv2 g i t v : Inv1 g -> Inv2 g -> g_work g i = Some WStart ->
   nth_error txs i = Some t -> g_vs g i = Some v ->
   (world_lock (reqs_of t) <> NoLock -> v_base v <> None) ->
@@ -579,6 +724,7 @@ Lemma started_inv2 g i t v : Inv1 g -> Inv2 g -> g_work g i = Some WStart ->
 Proof.
   intros I V Hw Ht Hv Hb. set (g' := set_work g i (WRun (tx_prog t))).
   assert (Fi : finishedb g i = false) by (unfold finishedb; now rewrite Hw).
+  assert (Ns : startedb g i = false) by (unfold startedb; now rewrite Hw).
   destruct (not_done_of_phase _ _ _ _ _ I Hv Ht Fi) as (Hnd & Hc & Hwl).
   pose proof (i_vs_ok _ _ I _ _ _ Hv Ht) as OK.
   assert (Hfi : forall j, finishedb g' j = finishedb g j).
@@ -588,11 +734,14 @@ Proof.
     rewrite Hw. congruence. }
   assert (ActO : forall j a, j <> i -> (active_w g' j a <-> active_w g j a)).
   { intros j a Hne. unfold active_w, startedb, g'. cbn. destruct (Nat.eqb_spec j i); [contradiction|tauto]. }
+  assert (StO : forall j, j <> i -> startedb g' j = startedb g j).
+  { intros j Hne. unfold startedb, g'. cbn. destruct (Nat.eqb_spec j i); [contradiction|reflexivity]. }
+  assert (StI : startedb g' i = true) by (unfold startedb, g'; cbn; now rewrite Nat.eqb_refl).
   assert (ActM : forall j a, active_w g j a -> active_w g' j a).
   { intros j a A. destruct (Nat.eq_dec j i) as [->|Hne]; [|now apply ActO].
     destruct A as (u & Hu & Hd & [H|[H S]]).
     - exists u. split; auto.
-    - unfold startedb in S. rewrite Hw in S. discriminate. }
+    - congruence. }
   destruct (world_lock_cases (reqs_of t)) as [Wl|[Wl|Wl]].
   - (* no world lock: the active sets do not change *)
     assert (ActI : forall a, active_w g' i a -> active_w g i a).
@@ -601,74 +750,120 @@ Proof.
       - assert (u = v) by congruence; subst u. rewrite Hwl, Wl in H. discriminate. }
     eapply inv2_frame_act; eauto.
     intros j vj tj w Hvj Htj Hndj Sw. exists w. apply (shadow_same g g' j tj w); auto.
-    intro a. split; auto. destruct (Nat.eq_dec j i) as [->|Hne]; auto. apply ActO; auto.
+    + intro a. split; auto. destruct (Nat.eq_dec j i) as [->|Hne]; auto. apply ActO; auto.
+    + destruct (Nat.eq_dec j i) as [->|Hne]; [congruence|]. rewrite StO; auto.
   - exfalso. apply (Hnwr _ _ Ht). exact Wl.
   - (* world write lock: from now on it holds every live account *)
     assert (Bs : forall m, m < i -> is_done g m = true).
     { apply (vo_base _ _ _ _ _ OK). apply Hb. congruence. }
-    assert (Di : is_done g i = false) by (unfold is_done; now rewrite Hv).
-    assert (Ei : forall a, effw i a).
-    { intro a. exists t. split; auto. apply can_write_spec. auto. }
+    pose proof (world_writer_real g i t v I V Hv Ht Wl Hnd Ns Bs) as Hreal.
     assert (NA : forall a, ~ active_w g i a).
-    { intros a (u & Hu & _ & [H|[_ S]]).
+    { intros x (u & Hu & _ & [H|[_ S]]).
       - assert (u = v) by congruence; subst u.
-        pose proof (vo_accts _ _ _ _ _ OK a) as LA. rewrite H, (entry_world_write _ a Wl) in LA. exact LA.
-      - unfold startedb in S. rewrite Hw in S. discriminate. }
-    assert (Hi : i <= n) by (apply Nat.lt_le_incl, nth_error_Some; congruence).
-    assert (Hreal : forall a, g_real g a = WB i a).
-    { intro a. apply (v_real _ V); auto.
-      intros j Hj Ej. destruct (Nat.eq_dec j i) as [->|].
-      - intros [T|T]; [congruence|exact (NA a T)].
-      - apply (later_untouched g i a j I (Ei a) Di); [lia|exact Ej]. }
+        pose proof (vo_accts _ _ _ _ _ OK x) as LA. rewrite H, (entry_world_write _ x Wl) in LA. exact LA.
+      - congruence. }
     eapply inv2_frame_act; eauto.
     intros j vj tj w Hvj Htj Hndj Sw. destruct (Nat.eq_dec j i) as [->|Hne].
-    + assert (tj = t) by congruence; subst tj. destruct Sw as (S1 & S2 & S3 & S4 & S5).
+    + assert (tj = t) by congruence; subst tj. destruct Sw as (S1 & S2 & S3 & S4 & S5 & S6).
       exists w. unfold shadow_ok. rewrite (Cp _ _ Ht).
-      split; [exact S1|]. split; [exact S2|]. split; [exact S3|]. split.
+      split; [exact S1|]. split; [exact S2|]. split; [exact S3|]. split; [|split].
       * intros a _. apply S4. apply NA.
       * intros a _. change (g_real g a = w a). rewrite Hreal. symmetry. apply S4. apply NA.
-    + exists w. apply (shadow_same g g' j tj w); auto; intro a; apply ActO; auto.
+      * congruence.
+    + exists w. apply (shadow_same g g' j tj w); auto; try (intro a; apply ActO; auto).
+      rewrite StO; auto.
+Qed.
+
+(* the worker takes its snapshot *)
+Lemma snap_inv2 g i t v : Inv1 g -> Inv2 g -> g_work g i = Some WStart ->
+  nth_error txs i = Some t -> g_vs g i = Some v ->
+  (world_lock (reqs_of t) <> NoLock -> v_base v <> None) ->
+  Inv2 (set_vs g i (set_snap v (take_snapshot g v))).
+Proof.
+  intros I V Hw Ht Hv Hb. set (sn := take_snapshot g v). set (g' := set_vs g i (set_snap v sn)).
+  assert (Fi : finishedb g i = false) by (unfold finishedb; now rewrite Hw).
+  assert (Ns : startedb g i = false) by (unfold startedb; now rewrite Hw).
+  destruct (not_done_of_phase _ _ _ _ _ I Hv Ht Fi) as (Hnd & Hc & Hwl).
+  pose proof (i_vs_ok _ _ I _ _ _ Hv Ht) as OK.
+  assert (Act : forall j a, active_w g' j a <-> active_w g j a).
+  { intros j a. unfold active_w, startedb, g'. cbn. destruct (Nat.eqb_spec j i); subst; [|tauto].
+    rewrite Hv. split; intros (u & Hu & H); inversion Hu; subst; eexists; split; eauto. }
+  assert (SD : forall m, is_done g' m = is_done g m).
+  { intro m. unfold g'. rewrite is_done_set_vs. destruct (Nat.eqb_spec m i); subst; auto.
+    unfold is_done. now rewrite Hv. }
+  assert (Other : forall j vj, g_vs g' j = Some vj ->
+            exists uj, g_vs g j = Some uj /\ v_accts vj = v_accts uj /\ v_done vj = v_done uj /\
+                       v_committed vj = v_committed uj /\ v_base vj = v_base uj /\ v_lbase vj = v_lbase uj /\
+                       (j <> i -> v_snap vj = v_snap uj)).
+  { intros j vj Hvj. unfold g' in Hvj. cbn in Hvj. destruct (Nat.eqb_spec j i); subst.
+    - inversion Hvj; subst vj. exists v. cbn. repeat split; auto. congruence.
+    - exists vj. repeat split; auto. }
+  (* the values in the snapshot *)
+  assert (Snap : (forall a x, s_accts sn a = Some x -> x = WB i a) /\
+                 (forall b, s_base sn = Some b -> forall a, b a = WB i a) /\
+                 (forall a, s_accts sn a <> None -> v_accts v a = Some (mkLas WriteLock SLive))).
+  { destruct (v_shadow _ V _ _ _ Hv Ht Hnd) as [w (S1 & S2 & S3 & S4 & S5 & S6)].
+    unfold sn, take_snapshot. rewrite Hc, Hwl.
+    destruct (world_lock_cases (reqs_of t)) as [Wl|[Wl|Wl]]; rewrite Wl; cbn.
+    - split; [|split].
+      3:{ intros a Hx. destruct (v_accts v a) as [[[] [d| |y]]|] eqn:Ha; try congruence.
+          exfalso. destruct (entry_of_las _ _ _ _ _ _ I Hv Ht Ha) as (e & He & [L1 [[L2|L2] _]] & _); cbn in *;
+          rewrite Hnd in *; try congruence; subst e; discriminate. }
+      + intros a x Hx. destruct (v_accts v a) as [[[] [d| |y]]|] eqn:Ha; try discriminate.
+        * inversion Hx; subst x. rewrite <- (S6 Ns a). apply S5.
+          exists v. split; auto.
+        * exfalso. destruct (entry_of_las _ _ _ _ _ _ I Hv Ht Ha) as (e & He & [L1 [[L2|L2] _]] & _); cbn in *;
+          rewrite Hnd in *; try congruence; subst e; discriminate.
+      + intros b Hbb. apply (v_basev _ V i v t b Hv Ht); auto. congruence.
+    - exfalso. apply (Hnwr _ _ Ht). exact Wl.
+    - split; [discriminate|]. split; [|congruence]. intros b E a. inversion E; subst b.
+      apply (world_writer_real g i t v I V Hv Ht Wl Hnd Ns).
+      apply (vo_base _ _ _ _ _ OK). apply Hb. congruence. }
+  destruct V as [V1 V2 V3 V4 V5 V6 V7 V8 V9 V10 V11 V12 V13]. constructor; auto.
+  - apply (v_real_mono g g'); auto. intros j a [T|T]; [left; now rewrite SD|right; now apply Act].
+  - intros j vj tj Hvj Htj Hndj. destruct (Other j vj Hvj) as (uj & Huj & _ & Ed & _).
+    destruct (V2 j uj tj Huj Htj) as [w Sw]; [congruence|]. exists w.
+    apply (shadow_same g g' j tj w); auto.
+  - intros j vj a x Hvj Ha. destruct (Other j vj Hvj) as (uj & Huj & Ea & _). eapply V3; eauto; congruence.
+  - intros j vj a x Hvj Ha. destruct (Other j vj Hvj) as (uj & Huj & Ea & _). eapply V4; eauto; congruence.
+  - intros j vj tj Hvj Htj Hdj Wj. destruct (Other j vj Hvj) as (uj & Huj & _ & Ed & Ec & _).
+    rewrite Ec. eapply V5; eauto; congruence.
+  - intros j vj tj Hvj Htj Hcm. destruct (Other j vj Hvj) as (uj & Huj & _ & _ & Ec & _).
+    change (dcount txs g') with (dcount txs g).
+    eapply V10; eauto; congruence.
+  - intros j vj tj b Hvj Htj Wn Hbb. destruct (Other j vj Hvj) as (uj & Huj & _ & _ & _ & Eb & _).
+    eapply V11; eauto; congruence.
+  - intros j vj s Hvj Hndj Hs. destruct (Other j vj Hvj) as (uj & Huj & _ & Ed & _ & _ & _ & Es).
+    destruct (Nat.eq_dec j i) as [->|Hne].
+    + unfold g' in Hvj. cbn in Hvj. rewrite Nat.eqb_refl in Hvj. inversion Hvj; subst vj. cbn in Hs.
+      inversion Hs; subst s. exact Snap.
+    + destruct (Other j vj Hvj) as (uj' & Huj' & Ea' & _). assert (uj' = uj) by congruence; subst uj'.
+      rewrite Ea'. eapply V12; eauto; try congruence. rewrite <- Es; auto.
+  - intros j vj a x Hvj Hndj Hx. destruct (Other j vj Hvj) as (uj & Huj & _ & Ed & _ & _ & El & _).
+    eapply V13; eauto; congruence.
 Qed.
 
 Lemma start_inv2 g i g' : Inv1 g -> Inv2 g -> g_work g i = Some WStart ->
   step_start txs g i = Some g' -> Inv2 g'.
 Proof.
-  intros I V Hw H. unfold step_start in H.
-  destruct (nth_error txs i) as [t|] eqn:Ht; try discriminate.
-  destruct (g_vs g i) as [v|] eqn:Hv; try discriminate.
-  assert (F : finishedb g i = false) by (unfold finishedb; now rewrite Hw).
-  destruct (not_done_of_phase _ _ _ _ _ I Hv Ht F) as (Hnd & Hc & Hwl).
-  rewrite Hc, Hwl in H.
-  assert (exists g1, Inv1 g1 /\ Inv2 g1 /\ vs_only g g1 /\
-            (exists v1, g_vs g1 i = Some v1 /\ (world_lock (reqs_of t) <> NoLock -> v_base v1 <> None)) /\
-            match access g1 i SYS with
-            | Some (g2, _) => Some (set_work g2 i (WRun (tx_prog t)))
-            | None => None
-            end = Some g') as (g1 & I1 & V1 & VO & (v1 & Hv1 & Hb1) & H1).
-  { destruct (world_lock (reqs_of t)) eqn:Wl.
-    - exists g. split; auto. split; auto. split; [apply vs_only_refl|]. split; auto. exists v; split; auto; congruence.
-    - destruct (realize_base g i) as [g1|] eqn:R; try discriminate.
-      destruct (realize_base_inv1 _ _ _ _ _ I Hv R) as (I1 & S & (v1 & Hv1 & B & _) & _).
-      exists g1. split; auto. split; [eapply inv2_st_sim; eauto|]. split; [apply S|]. split; auto. eauto.
-    - destruct (realize_base g i) as [g1|] eqn:R; try discriminate.
-      destruct (realize_base_inv1 _ _ _ _ _ I Hv R) as (I1 & S & (v1 & Hv1 & B & _) & _).
-      exists g1. split; auto. split; [eapply inv2_st_sim; eauto|]. split; [apply S|]. split; auto. eauto.
-    - exfalso. destruct (world_lock_cases (reqs_of t)) as [E|[E|E]]; congruence. }
-  destruct (access g1 i SYS) as [[g2 h]|] eqn:A; try discriminate. inversion H1; subst g'. clear H1.
-  destruct (access_inv1 _ _ _ _ _ _ I1 A) as (I2 & D2 & VO2).
-  pose proof (access_inv2 _ _ _ _ _ I1 V1 A) as V2.
+  intros I V Hw H.
+  destruct (nth_error txs i) as [t|] eqn:Ht; [|unfold step_start in H; rewrite Ht in H; discriminate].
+  destruct (g_vs g i) as [v|] eqn:Hv; [|unfold step_start in H; rewrite Ht, Hv in H; discriminate].
+  destruct (start_prefix _ _ _ _ _ _ I Hw Ht Hv H) as
+    (g1 & v1 & I1 & S1 & Hv1 & Hnd1 & Hc1 & Hwl1 & Hb1 & _ & I1' & H1 & Org).
+  assert (V1 : Inv2 g1).
+  { destruct Org as [->|[R Wn]]; [exact V|]. exact (realize_base_inv2 g i v g1 I V Hv Wn R). }
+  assert (Hw1 : g_work g1 i = Some WStart) by (destruct S1 as [(_ & W & _) _]; now rewrite W).
+  pose proof (snap_inv2 g1 i t v1 I1 V1 Hw1 Ht Hv1 Hb1) as V1'.
+  set (g1' := set_vs g1 i (set_snap v1 (take_snapshot g1 v1))) in *.
+  destruct (access g1' i SYS) as [[g2 h]|] eqn:A; try discriminate. inversion H1; subst g'. clear H1.
+  destruct (access_inv1 _ _ _ _ _ _ I1' A) as (I2 & D2 & VO2).
+  pose proof (access_inv2 _ _ _ _ _ I1' V1' A) as V2.
   assert (Hw2 : g_work g2 i = Some WStart).
-  { destruct VO as (_ & W1 & _). destruct VO2 as (_ & W2 & _). rewrite W2, W1. auto. }
-  destruct (scount_le_dcount txs g2) as [|]; cbn.
-  all: assert (exists v2, g_vs g2 i = Some v2 /\ (world_lock (reqs_of t) <> NoLock -> v_base v2 <> None)) as (v2 & Hv2 & Hb2).
-  all: try (destruct (world_lock_cases (reqs_of t)) as [E|E];
-    [ assert (Hs : i < scount txs g2) by
-        (destruct (Nat.lt_ge_cases i (scount txs g2)); auto; rewrite (i_wk_none _ _ I2 i) in Hw2 by assumption; discriminate);
-      pose proof (scount_le_dcount txs g2); destruct (i_vs_some _ _ I2 i) as [v2 Hv2]; [lia|];
-      exists v2; split; auto; congruence
-    | assert (Wn : world_lock (reqs_of t) <> NoLock) by (destruct E; congruence);
-      destruct (access_base _ _ _ _ _ _ _ I1 A Hv1 (Hb1 Wn)) as (v2 & Hv2 & B2); exists v2; split; auto ]).
-  all: eapply started_inv2; eauto.
+  { destruct VO2 as (_ & W2 & _). rewrite W2. exact Hw1. }
+  assert (Hv1' : g_vs g1' i = Some (set_snap v1 (take_snapshot g1 v1))) by (unfold g1'; cbn; now rewrite Nat.eqb_refl).
+  destruct (access_keep _ _ _ _ _ _ _ I1' A Hv1') as (v2 & Hv2 & B2 & _).
+  eapply started_inv2; eauto.
 Qed.
 
 (* ------------------------------------------------------------------ *)
@@ -687,13 +882,14 @@ Proof.
   set (accts' := fun a => match v_accts v a with
                           | Some l => match commit_las (set_rct g i r) a l with Some l' => Some l' | None => Some l end
                           | None => None end) in *.
-  assert (exists wl' cm', g1 = set_vs (set_rct g i r) i (mkV wl' accts' (v_keys v) (v_base v) cm' true) /\
-            (world_lock (reqs_of t) = WriteLock -> cm' = Some (g_real g))) as (wl' & cm' & -> & Hcm).
+  assert (exists wl' cm', g1 = set_vs (set_rct g i r) i (mkV wl' accts' (v_keys v) (v_base v) cm' true (v_lbase v) (v_snap v)) /\
+            (world_lock (reqs_of t) = WriteLock -> cm' = Some (g_real g)) /\
+            (world_lock (reqs_of t) <> WriteLock -> cm' = None)) as (wl' & cm' & -> & Hcm & Hcn).
   { rewrite Hwl in H. destruct (world_lock (reqs_of t)) eqn:Wl; inversion H; subst;
-    do 2 eexists; split; eauto; congruence. }
-  set (v' := mkV wl' accts' (v_keys v) (v_base v) cm' true).
+    do 2 eexists; split; eauto; split; congruence. }
+  set (v' := mkV wl' accts' (v_keys v) (v_base v) cm' true (v_lbase v) (v_snap v)).
   set (g' := set_work (set_vs (set_rct g i r) i v') i WRelease).
-  destruct (v_shadow _ V _ _ _ Hv Ht Hnd) as [w (S1 & S2 & S3 & S4 & S5)].
+  destruct (v_shadow _ V _ _ _ Hv Ht Hnd) as [w (S1 & S2 & S3 & S4 & S5 & S6)].
   rewrite (cur_prog_run _ _ _ _ Hw) in *.
   assert (S2' : forall a, w a = WB (S i) a) by exact S2.
   assert (S3' : r = snd (run_prog (tx_prog t) (WB i))) by exact S3.
@@ -719,7 +915,7 @@ Proof.
       + intros [T|T]; [congruence|contradiction].
       + apply (later_untouched g i a j I Ei Di); [lia|exact Ej]. }
   pose proof V as Vall.
-  destruct V as [V1 V2 V3 V4 V5 V6 V7 V8 V9]. constructor.
+  destruct V as [V1 V2 V3 V4 V5 V6 V7 V8 V9 V10 V11 V12 V13]. constructor.
   - intros a k Hk H1 H2. change (g_real g a = WB k a).
     destruct (eff_writer t a) eqn:Ea.
     + assert (Ei : effw i a) by (exists t; auto).
@@ -793,6 +989,22 @@ Proof.
     + discriminate.
     + apply V8.
   - exact V9.
+  - intros j vj tj Hvj Htj Hcm'. unfold g' in Hvj. cbn in Hvj.
+    change (dcount txs g') with (dcount txs g).
+    destruct (Nat.eqb_spec j i); subst.
+    + inversion Hvj; subst vj. assert (tj = t) by congruence; subst tj. cbn in Hcm'.
+      destruct (world_lock_cases (reqs_of t)) as [Wl|[Wl|Wl]]; auto;
+      exfalso; apply Hcm'; apply Hcn; congruence.
+    + eapply V10; eauto.
+  - intros j vj tj b Hvj Htj Wn Hb. unfold g' in Hvj. cbn in Hvj. destruct (Nat.eqb_spec j i); subst.
+    + inversion Hvj; subst vj. eapply V11; eauto.
+    + eapply V11; eauto.
+  - intros j vj s Hvj Hndj Hs. unfold g' in Hvj. cbn in Hvj. destruct (Nat.eqb_spec j i); subst.
+    + inversion Hvj; subst vj. discriminate.
+    + eapply V12; eauto.
+  - intros j vj a x Hvj Hndj Hx. unfold g' in Hvj. cbn in Hvj. destruct (Nat.eqb_spec j i); subst.
+    + inversion Hvj; subst vj. discriminate.
+    + eapply V13; eauto.
 Qed.
 
 (* ------------------------------------------------------------------ *)
@@ -840,7 +1052,7 @@ Proof.
     destruct A as (u & Hu & _). congruence. }
   assert (Hfi : forall j, finishedb g' j = finishedb g j).
   { intro j. unfold finishedb. change (g_work g' j) with (g_work (get_future g i t) j). now rewrite Wk. }
-  pose proof V as Vall. destruct V as [V1 V2 V3 V4 V5 V6 V7 V8 V9]. constructor.
+  pose proof V as Vall. destruct V as [V1 V2 V3 V4 V5 V6 V7 V8 V9 V10 V11 V12 V13]. constructor.
   - apply (v_real_mono g g'); auto. intros j a [T|T]; [left; now rewrite SD|right; auto].
   - intros j vj tj Hvj Htj Hndj. rewrite Hvs' in Hvj. destruct (Nat.eq_dec j i) as [->|Hne].
     + rewrite Nat.eqb_refl in Hvj. inversion Hvj; subst vj. assert (tj = t) by congruence; subst tj.
@@ -849,7 +1061,7 @@ Proof.
       { unfold cur_prog. change (g_work g' i) with (g_work (get_future g i t) i). now rewrite Wk, Wnone. }
       rewrite Cp. split; [apply (Hwd _ _ Ht)|]. split.
       { intro a. rewrite (world_before_S txs w0 i t Ht). reflexivity. }
-      split; [reflexivity|]. split; [auto|].
+      split; [reflexivity|]. split; [auto|]. split; [|auto].
       intros a (u & Hu & _ & [A|[_ S]]).
       * rewrite Hvs', Nat.eqb_refl in Hu. inversion Hu; subst u. rewrite An in A.
         destruct (entry (reqs_of t) a) as [e|]; try discriminate. unfold init_las in A.
@@ -861,7 +1073,8 @@ Proof.
       destruct (V2 j vj tj Hvj Htj Hndj) as [w Sw]. exists w.
       apply (shadow_same g g' j tj w); auto;
         try (unfold cur_prog; change (g_work g' j) with (g_work (get_future g i t) j); now rewrite Wk);
-        try (intro a; apply ActO; auto).
+        try (intro a; apply ActO; auto);
+        try (unfold startedb; change (g_work g' j) with (g_work (get_future g i t) j); rewrite Wk; auto).
   - intros j vj a x Hvj Ha. rewrite Hvs' in Hvj. destruct (Nat.eq_dec j i) as [->|Hne].
     + rewrite Nat.eqb_refl in Hvj. inversion Hvj; subst vj. rewrite An in Ha.
       destruct (entry (reqs_of t) a) as [e|]; try discriminate. unfold init_las in Ha.
@@ -883,6 +1096,36 @@ Proof.
   - intros j r. change (g_rcts g' j) with (g_rcts (get_future g i t) j). rewrite Rc. apply V7.
   - intros j. rewrite Hfi. change (g_rcts g' j) with (g_rcts (get_future g i t) j). rewrite Rc. apply V8.
   - intros w. change (g_final g') with (g_final (get_future g i t)). rewrite Fn. apply V9.
+  - intros j vj tj Hvj Htj Hcm. rewrite Hvs' in Hvj.
+    assert (Dc' : dcount txs g' = S i) by reflexivity. rewrite Dc'.
+    destruct (Nat.eq_dec j i) as [->|Hne].
+    + rewrite Nat.eqb_refl in Hvj. inversion Hvj; subst vj. congruence.
+    + destruct (Nat.eqb_spec j i); [contradiction|].
+      destruct (V10 j vj tj Hvj Htj Hcm) as [H|[H|H]]; auto.
+      * right. left. rewrite Hdc in H. lia.
+      * rewrite Hdc in H. fold n in H. lia.
+  - intros j vj tj b Hvj Htj Wnw Hb. rewrite Hvs' in Hvj. destruct (Nat.eq_dec j i) as [->|Hne].
+    + rewrite Nat.eqb_refl in Hvj. inversion Hvj; subst vj. assert (tj = t) by congruence; subst tj.
+      rewrite Bn in Hb. destruct i as [|i']; cbn in Hb.
+      * inversion Hb; subst b. intro a. apply V1; [lia| |intros; apply Later; auto].
+        intros j Hj. lia.
+      * destruct (g_vs g i') as [p|] eqn:Hp; try discriminate.
+        destruct (tx_of_vs _ _ _ _ I Hp) as [tp Htp].
+        assert (Hcp : v_committed p <> None) by congruence.
+        assert (Dp' : is_done g i' = true).
+        { apply (vo_comm _ _ _ _ _ (i_vs_ok _ _ I _ _ _ Hp Htp)); auto. }
+        assert (Dpv : v_done p = true) by (unfold is_done in Dp'; now rewrite Hp in Dp').
+        destruct (V10 i' p tp Hp Htp Hcp) as [H|[H|H]]; [|rewrite Hdc in H; lia|rewrite Hdc in H; fold n in H; lia].
+        destruct (V5 i' p tp Hp Htp Dpv H) as (w & Hw & Hwv). intro a. rewrite <- Hwv. congruence.
+    + destruct (Nat.eqb_spec j i); [contradiction|]. eapply V11; eauto.
+  - intros j vj s Hvj Hndj Hs. rewrite Hvs' in Hvj. destruct (Nat.eq_dec j i) as [->|Hne].
+    + rewrite Nat.eqb_refl in Hvj. inversion Hvj; subst vj.
+      rewrite (get_future_snap g i t vn) in Hs; [discriminate|]. rewrite Hvs, Nat.eqb_refl. reflexivity.
+    + destruct (Nat.eqb_spec j i); [contradiction|]. eapply V12; eauto.
+  - intros j vj a x Hvj Hndj Hx. rewrite Hvs' in Hvj. destruct (Nat.eq_dec j i) as [->|Hne].
+    + rewrite Nat.eqb_refl in Hvj. inversion Hvj; subst vj.
+      rewrite (get_future_lbase g i t vn a) in Hx; [discriminate|]. rewrite Hvs, Nat.eqb_refl. reflexivity.
+    + destruct (Nat.eqb_spec j i); [contradiction|]. eapply V13; eauto.
 Qed.
 
 Lemma final_inv2 g : Inv2 g -> (forall j, j < n -> is_done g j = true) ->
@@ -893,9 +1136,10 @@ Proof.
   { intro a. rewrite <- (world_before_all txs w0 n) by (unfold n; lia).
     apply (v_real _ V); auto.
     intros j Hj Ej. apply effw_lt_n in Ej. lia. }
-  destruct V as [V1 V2 V3 V4 V5 V6 V7 V8 V9]. constructor; auto;
+  destruct V as [V1 V2 V3 V4 V5 V6 V7 V8 V9 V10 V11 V12 V13]. constructor; auto;
   try (intros j v t Hv Ht Hnd; destruct (V2 j v t Hv Ht Hnd) as [w Sw]; exists w; exact Sw);
-  try (intros w E; inversion E; subst; exact Fin).
+  try (intros w E; inversion E; subst; exact Fin);
+  try (intros j v t Hv Ht Hc; right; right; unfold dcount, g'; cbn; lia).
 Qed.
 
 Lemma step_disp_inv2 g g' : Inv1 g -> Inv2 g -> step_disp txs g = Some g' -> Inv2 g'.
@@ -910,8 +1154,11 @@ Proof.
       * destruct (realize g j) as [g1|] eqn:R; try discriminate. inversion H; subst. clear H.
         assert (Hj : j < dcount txs g) by (unfold dcount; rewrite Hd; lia).
         destruct (realize_inv1 _ _ _ _ I Hj R) as (I1 & S1 & D & _).
-        apply final_inv2; [eapply inv2_st_sim; eauto|].
-        intros m Hm. rewrite (st_sim_done _ _ _ S1). apply D. lia.
+        apply final_inv2.
+        -- eapply inv2_st_sim; eauto.
+           ++ intros m u u' Hu Hu' _ _. right. unfold dcount. rewrite Hd. fold n. lia.
+           ++ intros m u u' t Hu Hu' Ht' Hb. exfalso. apply Hb. eapply realize_base_same; eauto.
+        -- intros m Hm. rewrite (st_sim_done _ _ _ S1). apply D. lia.
   - destruct (g_tokens g) as [|k] eqn:Tk; try discriminate. inversion H; subst. clear H.
     assert (Sc : scount txs g = i) by (unfold scount; now rewrite Hd).
     assert (Wn : g_work g i = None) by (apply (i_wk_none _ _ I); lia).
@@ -920,10 +1167,95 @@ Proof.
     { intros j a. unfold active_w, startedb, g'. cbn. destruct (Nat.eqb_spec j i); subst; [|tauto].
       rewrite Wn. tauto. }
     eapply inv2_frame_act; eauto.
+    + unfold dcount, g'. cbn. now rewrite Hd.
     + intros j a. apply Act.
     + intro j. unfold finishedb, g'. cbn. destruct (Nat.eqb_spec j i); subst; auto. now rewrite Wn.
     + intros j v t w Hv Ht Hnd Sw. exists w. apply (shadow_same g g' j t w); auto.
-      unfold cur_prog, g'. cbn. destruct (Nat.eqb_spec j i); subst; auto. now rewrite Wn.
+      * unfold cur_prog, g'. cbn. destruct (Nat.eqb_spec j i); subst; auto. now rewrite Wn.
+      * unfold startedb, g'. cbn. destruct (Nat.eqb_spec j i); subst; auto. now rewrite Wn.
+Qed.
+
+(* ------------------------------------------------------------------ *)
+(* a failed attempt is reset                                            *)
+
+Lemma fail_inv2 g i k g1 : Inv1 g -> Inv2 g -> g_work g i = Some (WRun (Fail k)) ->
+  reset g i = Some g1 -> Inv2 (set_work g1 i (WRun k)).
+Proof.
+  intros I V Hw R. destruct (phase_flags _ _ _ Hw) as [St Fi].
+  assert (Hs : i < scount txs g).
+  { destruct (Nat.lt_ge_cases i (scount txs g)); auto. rewrite (i_wk_none _ _ I i) in Hw by assumption. discriminate. }
+  pose proof (scount_le_dcount txs g). destruct (i_vs_some _ _ I i) as [v Hv]; [lia|].
+  destruct (tx_of_vs _ _ _ _ I Hv) as [t Ht]. pose proof (i_vs_ok _ _ I _ _ _ Hv Ht) as OK.
+  destruct (not_done_of_phase _ _ _ _ _ I Hv Ht Fi) as (Hnd & Hc & Hwl).
+  destruct (v_shadow _ V _ _ _ Hv Ht Hnd) as [w (S1 & S2 & S3 & S4 & S5 & S6)].
+  rewrite (cur_prog_run _ _ _ _ Hw) in *.
+  (* what Reset writes *)
+  assert (exists Rw, g1 = set_real g Rw /\
+            (forall a, active_w g i a -> Rw a = WB i a) /\
+            (forall a, ~ active_w g i a -> Rw a = g_real g a)) as (Rw & -> & Ra & Rn).
+  { unfold reset in R. rewrite Hv, Hnd in R. destruct (v_snap v) as [s|] eqn:Hs'; try discriminate.
+    destruct (v_snapv _ V _ _ _ Hv Hnd Hs') as (P1 & P2 & P3).
+    rewrite Hwl in R. destruct (world_lock_cases (reqs_of t)) as [Wl|[Wl|Wl]]; rewrite Wl in R.
+    - match type of R with (if ?c then _ else _) = _ => destruct c; try discriminate end.
+      inversion R; subst g1. eexists. split; [reflexivity|]. split.
+      + intros a (u & Hu & _ & [A|[A _]]); assert (u = v) by congruence; subst u; [|congruence].
+        unfold reset_val. rewrite A. destruct (s_accts s a) as [x|] eqn:Sa; [eapply P1; eauto|].
+        destruct (s_base s) as [b|] eqn:Sb; [eapply P2; eauto|].
+        destruct (v_lbase v a) as [x|] eqn:Lb; [eapply (v_lbasev _ V); eauto|].
+        (* no base at all: the live account was there before the snapshot or resolved later *)
+        destruct (vo_lbase _ _ _ _ _ OK a A) as [N|[(s' & Hs'' & N)|N]]; congruence.
+      + intros a Na. unfold reset_val. destruct (v_accts v a) as [[l st]|] eqn:Ha; auto.
+        destruct l; auto.
+        destruct (s_accts s a) as [x|] eqn:Sa.
+        { exfalso. apply Na. exists v. split; auto. split; auto. left. apply P3. congruence. }
+        destruct st as [d| |x]; auto.
+        * exfalso. apply Na. exists v. split; auto.
+        * exfalso. destruct (entry_of_las _ _ _ _ _ _ I Hv Ht Ha) as (e & He & [L1 [[L2|L2] _]] & _); cbn in *;
+          rewrite Hnd in *; try congruence; subst e; discriminate.
+    - exfalso. apply (Hnwr _ _ Ht). exact Wl.
+    - destruct (s_base s) as [b|] eqn:Sb; try discriminate. inversion R; subst g1.
+      exists b. split; [reflexivity|]. split.
+      + intros a _. eapply P2; eauto.
+      + intros a Na. exfalso. apply Na. exists v. split; auto. split; auto. right. split; auto. congruence. }
+  set (g2 := set_real g Rw). set (g' := set_work g2 i (WRun k)).
+  assert (ActE : forall j a', active_w g' j a' <-> active_w g j a').
+  { intros j a'. unfold g'. rewrite active_set_work.
+    - unfold active_w, g2. cbn. tauto.
+    - unfold startedb, g2. cbn. now rewrite Nat.eqb_refl, Hw. }
+  assert (SDE : forall m, is_done g' m = is_done g m) by reflexivity.
+  assert (Di : is_done g i = false) by (unfold is_done; now rewrite Hv).
+  pose proof V as Vall.
+  destruct V as [V1 V2 V3 V4 V5 V6 V7 V8 V9 V10 V11 V12 V13]. constructor; auto.
+  - intros a' k' Hk H1 H2. change (Rw a' = WB k' a').
+    destruct (active_dec g i a') as [A|NA].
+    + exfalso. pose proof (active_effw _ _ _ I A) as Ei.
+      destruct (Nat.lt_ge_cases i k') as [Hik|Hik].
+      * specialize (H1 i Hik Ei). rewrite SDE in H1. congruence.
+      * apply (H2 i Hik Ei). right. now apply ActE.
+    + rewrite (Rn a' NA). apply V1; auto.
+      intros j Hj Ej [T|T]; apply (H2 j Hj Ej); [left; exact T|right; now apply ActE].
+  - intros j vj tj Hvj Htj Hndj. change (g_vs g j = Some vj) in Hvj.
+    destruct (Nat.eq_dec j i) as [->|Hne].
+    + assert (vj = v) by congruence; subst vj. assert (tj = t) by congruence; subst tj.
+      exists (WB i). unfold shadow_ok. rewrite (cur_prog_run g' i t k).
+      2:{ unfold g'. cbn. now rewrite Nat.eqb_refl. }
+      split; [apply touches_fail_inv in S1; exact S1|]. split; [exact S2|]. split; [exact S3|].
+      split; [auto|]. split.
+      * intros a' Ac. apply ActE in Ac. change (Rw a' = WB i a'). auto.
+      * intro St'. exfalso. unfold startedb, g' in St'. cbn in St'. rewrite Nat.eqb_refl in St'. discriminate.
+    + destruct (V2 j vj tj Hvj Htj Hndj) as [wj (T1 & T2 & T3 & T4 & T5 & T6)]. exists wj.
+      assert (Cp : cur_prog g' j tj = cur_prog g j tj).
+      { unfold cur_prog, g'. cbn. destruct (Nat.eqb_spec j i); [contradiction|reflexivity]. }
+      unfold shadow_ok. rewrite Cp.
+      split; [exact T1|]. split; [exact T2|]. split; [exact T3|]. split; [|split].
+      * intros a' Na. apply T4. intro Ac. apply Na. now apply ActE.
+      * intros a' Ac. apply ActE in Ac. change (Rw a' = wj a').
+        rewrite Rn; [apply T5; exact Ac|]. intro Ai. apply Hne. eapply active_unique; eauto.
+      * intro St'. apply T6. unfold startedb, g' in St'. cbn in St'.
+        destruct (Nat.eqb_spec j i); [contradiction|exact St'].
+  - intros j. unfold finishedb, g'. cbn. destruct (Nat.eqb_spec j i); subst.
+    + discriminate.
+    + apply V8.
 Qed.
 
 Lemma step_worker_inv2 g i g' : Inv1 g -> Inv2 g -> step_worker txs g i = Some g' -> Inv2 g'.
@@ -931,13 +1263,15 @@ Proof.
   intros I V H. unfold step_worker in H.
   destruct (g_work g i) as [[|p| |]|] eqn:Hw; try discriminate.
   - eapply start_inv2; eauto.
-  - destruct p as [r|a k|a x k].
+  - destruct p as [r|a k|a x k|k].
     + destruct (commit (set_rct g i r) i) as [g1|] eqn:C; try discriminate.
       inversion H; subst. eapply commit_inv2; eauto.
     + destruct (access g i a) as [[g1 h]|] eqn:A; try discriminate. inversion H; subst.
       eapply read_inv2; eauto.
     + destruct (access g i a) as [[g1 [|y]]|] eqn:A; try discriminate. inversion H; subst.
       eapply write_inv2; eauto.
+    + destruct (reset g i) as [g1|] eqn:R; try discriminate. inversion H; subst.
+      eapply fail_inv2; eauto.
   - inversion H; subst. clear H.
     set (g' := set_work (set_tokens g (S (g_tokens g))) i WFinished).
     assert (Act : forall j a, active_w g' j a <-> active_w g j a).
@@ -947,7 +1281,8 @@ Proof.
     + intros j a. apply Act.
     + intro j. unfold finishedb, g'. cbn. destruct (Nat.eqb_spec j i); subst; auto. now rewrite Hw.
     + intros j v t w Hv Ht Hnd Sw. exists w. apply (shadow_same g g' j t w); auto.
-      unfold cur_prog, g'. cbn. destruct (Nat.eqb_spec j i); subst; auto. now rewrite Hw.
+      * unfold cur_prog, g'. cbn. destruct (Nat.eqb_spec j i); subst; auto. now rewrite Hw.
+      * unfold startedb, g'. cbn. destruct (Nat.eqb_spec j i); subst; auto. discriminate.
 Qed.
 
 Lemma init_inv2 level : Inv2 (init_state level w0).
@@ -988,31 +1323,23 @@ Proof.
   assert (Key : g_disp g' = g_disp g /\ g_final g' = g_final g /\
                 forall j, finishedb g j = true -> finishedb g' j = true).
   { unfold step_worker in H. destruct (g_work g i) as [[|p| |]|] eqn:Hw; try discriminate.
-    - unfold step_start in H.
-      destruct (nth_error txs i) as [t|]; try discriminate.
-      destruct (g_vs g i) as [v|] eqn:Hv; try discriminate.
-      assert (exists g1, Inv1 g1 /\ vs_only g g1 /\
-                match access g1 i SYS with
-                | Some (g2, _) => Some (set_work g2 i (WRun (tx_prog t)))
-                | None => None
-                end = Some g') as (g1 & I1 & VO & H1).
-      { destruct (v_committed v).
-        { exists g. split; auto. split; auto using vs_only_refl. }
-        destruct (v_wlock v).
-        - exists g. split; auto. split; auto using vs_only_refl.
-        - destruct (realize_base g i) as [g1|] eqn:R; try discriminate.
-          destruct (realize_base_inv1 _ _ _ _ _ I Hv R) as (I1 & S & _).
-          exists g1. split; auto. split; auto. apply S.
-        - destruct (realize_base g i) as [g1|] eqn:R; try discriminate.
-          destruct (realize_base_inv1 _ _ _ _ _ I Hv R) as (I1 & S & _).
-          exists g1. split; auto. split; auto. apply S.
-        - exists g. split; auto. split; auto using vs_only_refl. }
-      destruct (access g1 i SYS) as [[g2 h]|] eqn:A; try discriminate. inversion H1; subst g'.
-      destruct (access_inv1 _ _ _ _ _ _ I1 A) as (_ & _ & VO2).
-      pose proof (vs_only_trans _ _ _ VO VO2) as (_ & Wk & Dp & _ & _ & _ & _ & _ & Fn).
+    - destruct (nth_error txs i) as [t|] eqn:Ht; [|unfold step_start in H; rewrite Ht in H; discriminate].
+      destruct (g_vs g i) as [v|] eqn:Hv; [|unfold step_start in H; rewrite Ht, Hv in H; discriminate].
+      destruct (start_prefix _ _ _ _ _ _ I Hw Ht Hv H) as (g1 & v1 & I1 & S1 & Hv1 & _ & _ & _ & _ & _ & I1' & H1 & _).
+      set (g1' := set_vs g1 i (set_snap v1 (take_snapshot g1 v1))) in *.
+      destruct (access g1' i SYS) as [[g2 h]|] eqn:A; try discriminate. inversion H1; subst g'.
+      destruct (access_inv1 _ _ _ _ _ _ I1' A) as (_ & _ & (_ & W2 & D2 & _ & _ & _ & _ & _ & F2)).
+      destruct S1 as [(_ & W1 & D1 & _ & _ & _ & _ & _ & F1) _].
+      assert (Wk : g_work g2 = g_work g) by (rewrite W2; cbn; exact W1).
+      assert (Dp : g_disp g2 = g_disp g) by (rewrite D2; cbn; exact D1).
+      assert (Fn : g_final g2 = g_final g) by (rewrite F2; cbn; exact F1).
       split; auto. split; auto. intros j. unfold finishedb. cbn. rewrite Wk.
       destruct (Nat.eqb_spec j i); subst; auto. rewrite Hw. discriminate.
-    - destruct p as [r|a k|a x k].
+    - destruct p as [r|a k|a x k|k].
+      4:{ destruct (reset g i) as [g1|] eqn:R; try discriminate. inversion H; subst.
+          destruct (reset_real _ _ _ R) as [Rw ->].
+          split; auto. split; auto. intros j. unfold finishedb. cbn.
+          destruct (Nat.eqb_spec j i); subst; auto. rewrite Hw. discriminate. }
       + destruct (commit (set_rct g i r) i) as [g1|] eqn:C; try discriminate. inversion H; subst.
         destruct (commit_frame _ _ _ C) as (Dp & Fn & Wk).
         split; auto. split; auto. intros j. unfold finishedb. cbn. rewrite Wk. cbn.
@@ -1207,3 +1534,32 @@ Proof. split; vm_compute; reflexivity. Qed.
 Example ex_partial_can_step :
   complete (exec 2 w_init ex_txs (repeat ADisp 3 ++ [AWorker 1])) = false.
 Proof. vm_compute. reflexivity. Qed.
+
+(* a retried transaction: the first attempt of T1 writes account 2 and reads
+   account 1 (resolved after the snapshot was taken) and fails, the second
+   attempt fails after one instruction, the third succeeds *)
+Definition rt_txs : list tx := [
+  mkTx [(LAcct 1%nat, LWrite)] (compile [IDo (SAdd 1%nat 4)] []);
+  mkTx [(LAcct 1%nat, LWrite); (LAcct 2%nat, LWrite)]
+       (compile_fails [IDo (SXfer 1%nat 2%nat 6); IDo (SRead 2%nat)] [2%nat; 1%nat]);
+  mkTx [(LAcct 2%nat, LRead)] (compile [IDo (SRead 2%nat)] [])
+].
+
+Definition rt_sched : list actor :=
+  repeat ADisp 6 ++ concat (repeat [AWorker 2; AWorker 1; AWorker 0] 40) ++ [ADisp].
+
+Example rt_hypotheses : Forall well_declared rt_txs /\ Forall no_world_read rt_txs.
+Proof.
+  split.
+  - apply Forall_cons; [apply compile_well_declared; reflexivity|].
+    apply Forall_cons; [unfold well_declared; cbn [tx_prog]; apply compile_fails_touches; reflexivity|].
+    apply Forall_cons; [apply compile_well_declared; reflexivity|]. apply Forall_nil.
+  - repeat (apply Forall_cons; [unfold no_world_read; vm_compute; discriminate|]). apply Forall_nil.
+Qed.
+
+Example rt_result :
+  complete (exec 3 w_init rt_txs rt_sched) = true /\
+  g_rcts (exec 3 w_init rt_txs rt_sched) 1 = Some [1; 13] /\
+  g_rcts (exec 3 w_init rt_txs rt_sched) 2 = Some [13] /\
+  observed_seq rt_txs w_init 1 = Some [1; 13].
+Proof. repeat split; vm_compute; reflexivity. Qed.
